@@ -45,7 +45,7 @@ var c02Factors = []struct {
 	name string
 	n    int64
 }{{"base", 3}, {"bits", 256}, {"anchor", 4}, {"identity", 3}, {"expiry", 3}, {"certTime", 2}, {"revocation", 4}, {"plugin", 10},
-	{"vIdentity", 3}, {"vRevocation", 3}, {"callErr", 2}, {"crit", 3}, {"scheme", 2}, {"format", 2}, {"legacy", 2}, {"pver", 6}, {"prelude", 6}}
+	{"vIdentity", 3}, {"vRevocation", 3}, {"callErr", 2}, {"crit", 3}, {"scheme", 2}, {"format", 2}, {"legacy", 2}, {"pver", 6}, {"prelude", 6}, {"entry", 2}}
 
 func (c02) Gen(r *rand.Rand, tier string, idx int) *core.Plan {
 	w := map[string]int64{}
@@ -88,6 +88,7 @@ func (c02) Gen(r *rand.Rand, tier string, idx int) *core.Plan {
 	w["legacy"] = r.Int64N(2)
 	w["pver"] = healthy(6, 60)
 	w["prelude"] = healthy(6, 60)
+	w["entry"] = r.Int64N(2)
 	return p
 }
 
@@ -270,8 +271,8 @@ func (l c02) Exec(env *core.Env) *core.Result {
 		if plug >= 5 && plug <= 7 && (w["pver"] == 2 || w["pver"] == 5) {
 			pluginProblem = true // installed version precedes the signed minimum
 		}
-		situation := fmt.Sprintf("anchor=%d identity=%d expiry=%d certTime=%d revocation=%d plugin=%d verdicts=%d/%d callErr=%d crit=%d scheme=%d fmt=%d legacy=%d bits=%d pver=%d prelude=%d",
-			w["anchor"], w["identity"], w["expiry"], w["certTime"], w["revocation"], plug, w["vIdentity"], w["vRevocation"], w["callErr"], w["crit"], w["scheme"], w["format"], w["legacy"], w["bits"], w["pver"], w["prelude"])
+		situation := fmt.Sprintf("anchor=%d identity=%d expiry=%d certTime=%d revocation=%d plugin=%d verdicts=%d/%d callErr=%d crit=%d scheme=%d fmt=%d legacy=%d bits=%d pver=%d prelude=%d entry=%d",
+			w["anchor"], w["identity"], w["expiry"], w["certTime"], w["revocation"], plug, w["vIdentity"], w["vRevocation"], w["callErr"], w["crit"], w["scheme"], w["format"], w["legacy"], w["bits"], w["pver"], w["prelude"], w["entry"])
 		accepted := map[string]bool{}
 		for base := int64(0); base < 3; base++ {
 			levelName, override, enf := levelFromKnobs(base, w["bits"])
@@ -310,7 +311,7 @@ func (l c02) Exec(env *core.Env) *core.Result {
 				}
 				installed, had := sm.Plugins[c02Plugin]
 				sm.Plugins[c02Plugin] = pre
-				v.Verify(ctx, desc, sig, notation.VerifierVerifyOptions{ArtifactReference: "registry.example/repo@" + desc.Digest.String(), SignatureMediaType: so.MediaType})
+				verifyEntry(ctx, v, w["entry"], desc, sig, so.MediaType)
 				if had {
 					sm.Plugins[c02Plugin] = installed
 				} else {
@@ -320,7 +321,7 @@ func (l c02) Exec(env *core.Env) *core.Result {
 				rt.Sleep(3 * time.Minute)
 				res.Probe("verified_before_with_another_plugin_build_installed")
 			}
-			outcome, verr := v.Verify(ctx, desc, sig, notation.VerifierVerifyOptions{ArtifactReference: "registry.example/repo@" + desc.Digest.String(), SignatureMediaType: so.MediaType})
+			outcome, verr := verifyEntry(ctx, v, w["entry"], desc, sig, so.MediaType)
 			accepted[levelName] = verr == nil
 			key := fmt.Sprintf("%s%v | %s", levelName, override, situation)
 			var rs []string
